@@ -357,9 +357,10 @@ class Engine:
             if n == 'isinstance' and len(e.args) == 2 and isinstance(e.args[1], ast.Name) and e.args[1].id in self.w.isinstance_preds:
                 return Sym(TBool, self.w.isinstance_preds[e.args[1].id](self.ev(e.args[0], st)))
             if n in self.w.identity_fns: return self.ev(e.args[0], st)
-            if n in ('set', 'list') and len(e.args) == 1:
+            if n in ('set', 'list', 'deque') and len(e.args) == 1:
                 a = self.ev(e.args[0], st)
-                if n == 'list' and isinstance(a.t, TSet):        # list(S): a bag with every element once
+                if n == 'deque' and isinstance(a.t, TBag): return a
+                if n in ('list', 'deque') and isinstance(a.t, TSet):        # list(S): a bag with every element once
                     rt = TBag(a.t.elem); q = Const(fresh_name('lq'), a.t.elem.sort()); res = rt.fresh('list')
                     st.pc.append(ForAll([q], Select(res.term, q) == If(Select(a.term, q), 1, 0))); return res
                 if n == 'set' and isinstance(a.t, TSet): return a
@@ -525,6 +526,18 @@ class Engine:
         return outs
 
     def ex_stmt(self, s, st, path):
+        if isinstance(s, ast.Expr) and isinstance(s.value, (ast.Yield, ast.YieldFrom)):
+            acc = st.env.get('$yield')
+            if acc is None: raise Unsupported('yield in a function whose contract does not return a bag')
+            if isinstance(s.value, ast.Yield):
+                v = self.ev(s.value.value, st)
+                if v.t != acc.t.elem: raise Unsupported(f'yield of {v.t}, contract says {acc.t}')
+                st.env['$yield'] = Sym(acc.t, Store(acc.term, v.term, Select(acc.term, v.term) + 1))
+            else:
+                g = self.ev(s.value.value, st)
+                if isinstance(g.t, TBag) and g.t == acc.t: st.env['$yield'] = self.bag_union(acc, g, st)
+                else: raise Unsupported(f'yield from {g.t}')
+            return [(st, 'normal')]
         if isinstance(s, ast.Expr):
             if not isinstance(s.value, ast.Constant): self.ev(s.value, st)
             return [(st, 'normal')]
@@ -601,6 +614,7 @@ class Engine:
     def modified_names(self, stmts):
         names = set()
         for n in ast.walk(ast.Module(body=stmts, type_ignores=[])):
+            if isinstance(n, (ast.Yield, ast.YieldFrom)): names.add('$yield')
             if isinstance(n, ast.Name) and isinstance(n.ctx, ast.Store): names.add(n.id)
             elif isinstance(n, (ast.Subscript, ast.Attribute)) and isinstance(n.ctx, ast.Store):
                 b = n
@@ -710,6 +724,10 @@ class Engine:
         env = {n: t.fresh(n) for n, t in c.params}; old = dict(env)
         for n in old: env['$param:' + n] = old[n]; env['$old.' + n] = old[n]
         st = State(env, [])
+        self.is_generator = any(isinstance(n_, (ast.Yield, ast.YieldFrom)) for n_ in ast.walk(fn))
+        if self.is_generator:
+            if not isinstance(c.ret, TBag): raise Unsupported('generator function: the contract must return a bag')
+            env['$yield'] = c.ret.empty()
         o = NS(old); self.entry = old
         if c.requires is not None: st.pc.append(unwrap(c.requires(o)))
         for e_st, oc in self.ex_block(fn.body, st, []):
@@ -720,6 +738,7 @@ class Engine:
                 else: self.oblige(e_st, f'raise {oc[1]} only when declared', cond(o), fn.lineno)
                 continue
             res = oc[1]
+            if self.is_generator: res = e_st.env['$yield']          # what a generator returns is the bag of what it yielded
             if c.hints is not None: e_st.pc += [unwrap(h) for h in c.hints(o, NS(e_st.env), res)]
             new = {n: e_st.env['$param:' + n] for n, _ in c.params}
             for exc, cond in c.raises.items():
